@@ -468,7 +468,30 @@ def obligations(tier):
 
 
 def main(tier="quick", seed=0, jobs=16, only=None, time_scale=1.0):
+    import json
+    import os
+    import subprocess
+    import sys
     obs = obligations(tier)
     if only:
         obs = [o for o in obs if only in o.name]
-    return run_property("C14", obs, tier, seed, jobs=jobs, time_scale=time_scale)
+    # the SMT lemmas that justify the integer model of round(us / 1000) (L1) and the format tables (L4) run
+    # beside the exploration; their verdict is merged into the evidence, a failed lemma is exit 3
+    from ..framework import VERIF, PY
+    lem = subprocess.Popen([PY, "-W", "ignore", "-m", "symx.lemmas"], cwd=VERIF, stdout=subprocess.PIPE,
+                           stderr=subprocess.DEVNULL, text=True)
+    status = run_property("C14", obs, tier, seed, jobs=jobs, time_scale=time_scale)
+    out, _ = lem.communicate(timeout=900)
+    try:
+        res = json.loads(out.strip().splitlines()[-1])
+    except Exception:      # noqa
+        res = {"ok": False, "error": out[-300:]}
+    evp = os.path.join(VERIF, "evidence", "C14.json")
+    ev = json.load(open(evp))
+    ev["coverage"]["smt_lemmas"] = res
+    json.dump(ev, open(evp, "w"), indent=1, sort_keys=True)
+    if not res.get("ok"):
+        print("HARNESS-ERROR obligation=lemmas an SMT lemma behind the engine's float model did not hold: %s" % json.dumps(res)[:400])
+        if status == 0:
+            status = 3
+    return status
